@@ -9,6 +9,7 @@ ACTION_CONSTRAINT EmitEnv
 INVARIANT EmitRun
 INVARIANT TypeOK
 INVARIANT BOLOnceFirst
+INVARIANT StartSampledAfterBOL
 INVARIANT ScheduleIsNestedLoop
 INVARIANT EOLOnceLast
 INVARIANT HaltStopsLoopAndRunsEOL
